@@ -1,10 +1,27 @@
 /-
-Fixed-INPUT asynchronous resamplers (`.fastIn`, `.sincIn`) at exact arithmetic (ρ = σ = ℚ):
-the per-call results of `FixedIn.lean` (about `AState.finishIn`) lifted to whole `AState.process`
-calls and to arbitrary CONSTANT-RATIO histories.
+Fixed-INPUT asynchronous resamplers (`.fastIn` = `FastFixedIn`, `.sincIn` = `SincFixedIn`) at exact
+arithmetic (ρ = σ = ℚ): the per-call results of `FixedIn.lean` (about `AState.finishIn`) lifted to
+whole `AState.process` calls and to arbitrary CONSTANT-RATIO histories.
+
+A  the stages of `process` for a fixed-input resampler
+B  `validate_buffers` ⇔ pointwise conditions; the room `process` computes (`fuelOf_ge`)
+C  one constant-ratio `finishIn` with the exact state it leaves (`fastIn_finish`, `sincIn_finish`;
+   the sinc variant only needs `nbr ≥ 1`, and `nbr ≥ 2` for cubic / quadratic)
+D  the invariant `GoodIn`, established by the constructor (`goodIn_init`)
+E  a whole call: `ValidCall`, `process_valid_ok`, `process_any` (never a panic / abort),
+   `process_ok_iff_valid`
+F  `set_chunk_size`, `reset` keep `GoodIn`
+G  histories `OpC`, `goodIn_foldl`, headline `fixedIn_constant_ratio_safe`
+H  accounting over histories: `no_drift`, `no_drift_init`, `totalIn_valid`, `no_drift_valid`
+I  non-vacuity examples (and finding D12 at the level of `process`)
+
+"Machine sizes" assumption (`GoodIn.machine`): `outNextIn maxChunk orig orig ≤ idleFuel = 10^8`.
+The model bounds the stepping loop by `idleFuel` when NO channel is active (nothing is written then,
+the real loop is bounded by `end_idx` only); the assumption makes that artificial bound irrelevant.
 -/
 import RubatoProofs.Async.FixedIn
 import RubatoProofs.Async.FixedOut
+import RubatoProofs.Lemmas.Shape
 
 namespace Rubato.FixedInHistory
 open Rubato Rubato.Bridge Rubato.Gen Rubato.FixedIn
@@ -667,8 +684,8 @@ theorem goodIn_reset {s : AState ℚ ℚ} (h : GoodIn s) : GoodIn s.reset := by
 theorem reset_lastIndex {s : AState ℚ ℚ} (h : GoodIn s) :
     s.reset.lastIndex = -((s.L / 2 : ℕ) : ℚ) ∧ s.reset.L = s.L ∧ s.reset.orig = s.orig := by
   rcases h.kind with k | k
-  · rw [reset_fastIn k]; exact ⟨ofNat_eq _, rfl, rfl⟩
-  · rw [reset_sincIn k]; exact ⟨ofNat_eq _, rfl, rfl⟩
+  · rw [reset_fastIn k]; exact ⟨congrArg Neg.neg (ofNat_eq _), rfl, rfl⟩
+  · rw [reset_sincIn k]; exact ⟨congrArg Neg.neg (ofNat_eq _), rfl, rfl⟩
 
 /-! ## G. Constant-ratio histories -/
 
@@ -738,5 +755,326 @@ theorem fixedIn_constant_ratio_safe {kind : AKind} (hk : kind = .fastIn ∨ kind
     rcases (process_any hg a).2 with ⟨hv, _⟩ | ⟨_, e, _, he, _⟩
     · exact absurd hv hnv
     · exact ⟨e, he⟩
+
+
+/-! ## H. Accounting at the level of `process`: no drift -/
+
+/-- a resampler together with the running totals of frames consumed / produced -/
+structure Tot where
+  s : AState ℚ ℚ
+  tin : ℕ
+  tout : ℕ
+
+/-- one API call; the totals are the sums of the `nIn` / `nOut` that `process` RETURNS (a call that
+ends in an error returns nothing and counts 0); `reset` restarts the count -/
+def Tot.step (t : Tot) : OpC → Tot
+  | .process a =>
+    match (t.s.process a).2 with
+    | .ok out => ⟨(t.s.process a).1, t.tin + out.nIn, t.tout + out.nOut⟩
+    | _ => ⟨(t.s.process a).1, t.tin, t.tout⟩
+  | .setChunk n => ⟨(t.s.setChunk n).1, t.tin, t.tout⟩
+  | .reset => ⟨t.s.reset, 0, 0⟩
+
+def totals (s : AState ℚ ℚ) (ops : List OpC) : Tot := ops.foldl Tot.step ⟨s, 0, 0⟩
+
+/-- frames consumed / produced by a history (since its last `reset`) -/
+def totalIn (s : AState ℚ ℚ) (ops : List OpC) : ℕ := (totals s ops).tin
+def totalOut (s : AState ℚ ℚ) (ops : List OpC) : ℕ := (totals s ops).tout
+
+theorem Tot.step_s (t : Tot) (op : OpC) : (t.step op).s = op.apply t.s := by
+  cases op with
+  | process a =>
+    simp only [Tot.step, OpC.apply]
+    split <;> rfl
+  | setChunk n => rfl
+  | reset => rfl
+
+theorem foldl_step_s (ops : List OpC) (t : Tot) :
+    (ops.foldl Tot.step t).s = ops.foldl OpC.apply t.s := by
+  induction ops generalizing t with
+  | nil => rfl
+  | cons op ops ih => simp only [List.foldl_cons]; rw [ih, Tot.step_s]
+
+/-- the state component of `totals` is the state after the history -/
+theorem totals_s (s : AState ℚ ℚ) (ops : List OpC) : (totals s ops).s = ops.foldl OpC.apply s :=
+  foldl_step_s ops ⟨s, 0, 0⟩
+
+/-- the conserved quantity: `r·totalIn − totalOut = r·(−(L/2) − lastIndex)` -/
+structure Bal (L : ℕ) (r : ℚ) (t : Tot) : Prop where
+  good : GoodIn t.s
+  eL : t.s.L = L
+  er : t.s.orig = r
+  bal : r * t.tin - t.tout = r * (-((L / 2 : ℕ) : ℚ) - t.s.lastIndex)
+
+theorem bal_step {L : ℕ} {r : ℚ} {t : Tot} (h : Bal L r t) (op : OpC) : Bal L r (t.step op) := by
+  obtain ⟨hg, eL, er, hb⟩ := h
+  have hr : 0 < r := by rw [← er]; exact hg.orig_pos
+  cases op with
+  | process a =>
+    have hfr := process_frame t.s a
+    rcases (process_any hg a).2 with ⟨hv, _⟩ | ⟨_, e, m, he, hs⟩
+    · obtain ⟨out, ho, r1, _, _, _, hg', _, hid⟩ := process_valid_ok hg hv
+      simp only [Tot.step, ho]
+      refine ⟨hg', by rw [hfr.L]; exact eL, by rw [hfr.orig]; exact er, ?_⟩
+      show r * ((t.tin + out.nIn : ℕ) : ℚ) - ((t.tout + out.nOut : ℕ) : ℚ) = _
+      rw [er] at hid
+      rw [r1]
+      have e1 : r * ((out.nOut : ℚ) * (1 / r)) = out.nOut := by field_simp
+      have e2 : r * ((t.s.process a).1.lastIndex + (t.s.chunk : ℚ)) =
+          r * t.s.lastIndex + out.nOut := by rw [hid, mul_add, e1]
+      push_cast
+      linarith
+    · simp only [Tot.step, he]
+      refine ⟨process_any_keeps_good hg a, by rw [hfr.L]; exact eL, by rw [hfr.orig]; exact er, ?_⟩
+      show r * (t.tin : ℚ) - (t.tout : ℚ) = r * (-((L / 2 : ℕ) : ℚ) - (t.s.process a).1.lastIndex)
+      rw [hs]; exact hb
+  | setChunk n =>
+    obtain ⟨c1, c2, c3⟩ := setChunk_lastIndex hg n
+    refine ⟨goodIn_setChunk hg n, c2.trans eL, c3.trans er, ?_⟩
+    show r * (t.tin : ℚ) - (t.tout : ℚ) = r * (-((L / 2 : ℕ) : ℚ) - (t.s.setChunk n).1.lastIndex)
+    rw [c1]; exact hb
+  | reset =>
+    obtain ⟨c1, c2, c3⟩ := reset_lastIndex hg
+    refine ⟨goodIn_reset hg, c2.trans eL, c3.trans er, ?_⟩
+    show r * ((0 : ℕ) : ℚ) - ((0 : ℕ) : ℚ) = r * (-((L / 2 : ℕ) : ℚ) - t.s.reset.lastIndex)
+    rw [c1, eL]; simp
+
+theorem bal_foldl {L : ℕ} {r : ℚ} {t : Tot} (h : Bal L r t) (ops : List OpC) :
+    Bal L r (ops.foldl Tot.step t) := by
+  induction ops generalizing t with
+  | nil => exact h
+  | cons op ops ih => exact ih (bal_step h op)
+
+/-- **No drift.**  Start from a fresh `GoodIn` resampler (`lastIndex = −(L/2)`, as after the
+constructor or `reset`) and run ANY history of `process` calls (any chunk-size schedule through
+`set_chunk_size`, any arguments — the valid calls return `Ok` and are counted with the `nIn`,
+`nOut` they report, the others return an error and count nothing), of any length.  With
+`r = orig` the ratio: `0 ≤ r·totalIn − totalOut ≤ r·(L − L/2 + 1 + ⌈1/r⌉) ≤ r·(L + 1/r + 3) + 3`. -/
+theorem no_drift {s : AState ℚ ℚ} (h : GoodIn s) (hfresh : s.lastIndex = -((s.L / 2 : ℕ) : ℚ))
+    (ops : List OpC) :
+    let r := s.orig
+    let d := r * (totalIn s ops : ℚ) - (totalOut s ops : ℚ)
+    d = r * (-((s.L / 2 : ℕ) : ℚ) - (ops.foldl OpC.apply s).lastIndex) ∧
+    0 ≤ d ∧
+    d ≤ r * ((s.L : ℚ) - ((s.L / 2 : ℕ) : ℚ) + 1 + (⌈1 / r⌉ : ℤ)) ∧
+    d ≤ r * ((s.L : ℚ) + 1 / r + 3) + 3 := by
+  intro r d
+  have h0 : Bal s.L s.orig ⟨s, 0, 0⟩ := ⟨h, rfl, rfl, by
+    show s.orig * ((0 : ℕ) : ℚ) - ((0 : ℕ) : ℚ) = _
+    rw [hfresh]; simp⟩
+  obtain ⟨hg, eL, er, hb⟩ := (bal_foldl h0 ops : Bal s.L s.orig (totals s ops))
+  have hr : 0 < r := h.orig_pos
+  have hinv := hg.inv
+  rw [eL, er] at hinv
+  obtain ⟨hlo, hhi⟩ := hinv
+  have key : d = r * (-((s.L / 2 : ℕ) : ℚ) - (ops.foldl OpC.apply s).lastIndex) := by
+    rw [← totals_s]; exact hb
+  have hT := T_lt_t_add_one r
+  have hL := half_le s.L
+  have hL0 : (0 : ℚ) ≤ ((s.L / 2 : ℕ) : ℚ) := Nat.cast_nonneg _
+  have hlast : (ops.foldl Tot.step ⟨s, 0, 0⟩).s.lastIndex = (ops.foldl OpC.apply s).lastIndex := by
+    rw [foldl_step_s]
+  rw [hlast] at hlo hhi
+  have e1 : r * (1 / r) = 1 := by field_simp
+  refine ⟨key, ?_, ?_, ?_⟩
+  · rw [key]; apply mul_nonneg hr.le; linarith
+  · rw [key]; apply mul_le_mul_of_nonneg_left _ hr.le; linarith
+  · rw [key]
+    have : r * (-((s.L / 2 : ℕ) : ℚ) - (ops.foldl OpC.apply s).lastIndex) ≤
+        r * ((s.L : ℚ) + 1 / r + 3) := by
+      apply mul_le_mul_of_nonneg_left _ hr.le; linarith
+    linarith
+
+/-- `no_drift` from the constructor -/
+theorem no_drift_init {kind : AKind} (hk : kind = .fastIn ∨ kind = .sincIn)
+    {ratio maxRel : ℚ} {deg : Degree} {sint : SincInterp} {ip : Interp ℚ} {chunk nch : ℕ}
+    {s0 : AState ℚ ℚ}
+    (hL3 : kind = .sincIn → 3 ≤ ip.len)
+    (hn : kind = .sincIn → 1 ≤ ip.nbr)
+    (hn2 : kind = .sincIn → sint = .cubic ∨ sint = .quadratic → 2 ≤ ip.nbr)
+    (hmach : outNextIn chunk ratio ratio ≤ idleFuel)
+    (h0 : AState.init kind ratio maxRel deg sint ip chunk nch = .ok s0) (ops : List OpC) :
+    let d := ratio * (totalIn s0 ops : ℚ) - (totalOut s0 ops : ℚ)
+    0 ≤ d ∧ d ≤ ratio * ((s0.L : ℚ) - ((s0.L / 2 : ℕ) : ℚ) + 1 + (⌈1 / ratio⌉ : ℤ)) ∧
+      d ≤ ratio * ((s0.L : ℚ) + 1 / ratio + 3) + 3 := by
+  have hg := goodIn_init hk hL3 hn hn2 hmach h0
+  have hfi : kind.isFixedIn = true := by rcases hk with k | k <;> simp [k, AKind.isFixedIn]
+  have ho : s0.orig = ratio ∧ s0.lastIndex = -((s0.L / 2 : ℕ) : ℚ) := by
+    unfold AState.init at h0
+    split at h0
+    · simp at h0
+    · simp only [hfi, if_true, Except.ok.injEq] at h0
+      subst h0
+      exact ⟨rfl, congrArg Neg.neg (ofNat_eq _)⟩
+  obtain ⟨_, a, b, c⟩ := no_drift hg ho.2 ops
+  rw [ho.1] at a b c
+  exact ⟨a, b, c⟩
+
+
+/-! ### histories of valid calls -/
+
+/-- a history (without `reset`) in which every `process` call meets the advertised sizes -/
+def ValidHist : AState ℚ ℚ → List OpC → Prop
+  | _, [] => True
+  | s, .process a :: ops => ValidCall s a ∧ ValidHist (s.process a).1 ops
+  | s, .setChunk n :: ops => ValidHist (s.setChunk n).1 ops
+  | _, .reset :: _ => False
+
+/-- the chunk sizes in force at the `process` calls of a history -/
+def chunksOf : AState ℚ ℚ → List OpC → List ℕ
+  | _, [] => []
+  | s, .process a :: ops => s.chunk :: chunksOf (s.process a).1 ops
+  | s, .setChunk n :: ops => chunksOf (s.setChunk n).1 ops
+  | s, .reset :: ops => chunksOf s.reset ops
+
+theorem foldl_tin_valid (ops : List OpC) (t : Tot) (hg : GoodIn t.s) (hv : ValidHist t.s ops) :
+    (ops.foldl Tot.step t).tin = t.tin + (chunksOf t.s ops).sum := by
+  induction ops generalizing t with
+  | nil => simp [chunksOf]
+  | cons op ops ih =>
+    cases op with
+    | process a =>
+      obtain ⟨hva, hrest⟩ := hv
+      obtain ⟨out, ho, r1, _, _, _, hg', _⟩ := process_valid_ok hg hva
+      have hstep : t.step (.process a) = ⟨(t.s.process a).1, t.tin + out.nIn, t.tout + out.nOut⟩ := by
+        simp only [Tot.step, ho]
+      rw [List.foldl_cons, hstep, ih _ hg' hrest]
+      simp only [chunksOf, List.sum_cons, r1]
+      omega
+    | setChunk n =>
+      rw [List.foldl_cons]
+      exact ih ⟨(t.s.setChunk n).1, t.tin, t.tout⟩ (goodIn_setChunk hg n) hv
+    | reset => exact absurd hv (by simp [ValidHist])
+
+/-- in a history of valid calls every call succeeds, so the frames consumed are the sum of the chunk
+sizes in force; together with `no_drift` this pins `totalOut` to within a constant of
+`r · Σ chunks`. -/
+theorem totalIn_valid {s : AState ℚ ℚ} (h : GoodIn s) {ops : List OpC} (hv : ValidHist s ops) :
+    totalIn s ops = (chunksOf s ops).sum := by
+  have := foldl_tin_valid ops ⟨s, 0, 0⟩ h hv
+  simpa [totalIn, totals] using this
+
+theorem no_drift_valid {s : AState ℚ ℚ} (h : GoodIn s)
+    (hfresh : s.lastIndex = -((s.L / 2 : ℕ) : ℚ)) {ops : List OpC} (hv : ValidHist s ops) :
+    let d := s.orig * ((chunksOf s ops).sum : ℚ) - (totalOut s ops : ℚ)
+    0 ≤ d ∧ d ≤ s.orig * ((s.L : ℚ) - ((s.L / 2 : ℕ) : ℚ) + 1 + (⌈1 / s.orig⌉ : ℤ)) ∧
+      d ≤ s.orig * ((s.L : ℚ) + 1 / s.orig + 3) + 3 := by
+  obtain ⟨_, a, b, c⟩ := no_drift h hfresh ops
+  rw [totalIn_valid h hv] at a b c
+  exact ⟨a, b, c⟩
+
+/-! ## I. Non-vacuity -/
+
+/-- `FastFixedIn::new(441/480, 2.0, Septic, 64, 2)` -/
+def exFast : AState ℚ ℚ :=
+  { kind := .fastIn, nch := 2, chunk := 64, maxChunk := 64, needed := 0, fill := 64,
+    lastIndex := -4, ratio := 441/480, orig := 441/480, target := 441/480, maxRel := 2, L := 8,
+    deg := .septic, sint := .nearest, ip := ⟨0, 0, fun _ _ _ => 0⟩, buf := zeroBuf 2 80,
+    mask := [true, true] }
+
+theorem exFast_is_init :
+    AState.init .fastIn (441/480 : ℚ) 2 .septic .nearest ⟨0, 0, fun _ _ _ => 0⟩ 64 2 = .ok exFast := by
+  simp [AState.init, validateRatios, exFast, AKind.isSinc, AKind.isFixedIn, Fast.polyLen]
+  norm_num
+
+theorem exFast_next : outNextIn 64 (441/480 : ℚ) (441/480) = 68 := by decide +kernel
+
+theorem exFast_good : GoodIn exFast :=
+  goodIn_init (Or.inl rfl) nofun nofun nofun (by rw [exFast_next]; decide) exFast_is_init
+
+/-- two channels, 64 frames each, 68 and 70 frames of room, no mask -/
+def exArgs : CallArgs ℚ :=
+  { input := [Array.replicate 64 1, Array.replicate 64 (1/2)], outLens := [68, 70], mask := none }
+
+theorem exArgs_valid : ValidCall exFast exArgs := by
+  refine ⟨nofun, rfl, rfl, ?_, ?_⟩
+  · intro c inp _ h2
+    match c with
+    | 0 => simp only [exArgs, List.getElem?_cons_zero, Option.some.injEq] at h2; subst h2; simp [exFast]
+    | 1 =>
+      simp only [exArgs, List.getElem?_cons_succ, List.getElem?_cons_zero, Option.some.injEq] at h2
+      subst h2; simp [exFast]
+    | c + 2 => simp [exArgs] at h2
+  · intro c l _ h2
+    show outNextIn 64 (441/480 : ℚ) (441/480) ≤ l
+    rw [exFast_next]
+    match c with
+    | 0 => simp only [exArgs, List.getElem?_cons_zero, Option.some.injEq] at h2; omega
+    | 1 =>
+      simp only [exArgs, List.getElem?_cons_succ, List.getElem?_cons_zero, Option.some.injEq] at h2
+      omega
+    | c + 2 => simp [exArgs] at h2
+
+/-- `process_valid_ok` applies -/
+example : ∃ out, (exFast.process exArgs).2 = .ok out ∧ out.nIn = 64 ∧ out.nOut ≤ 68 ∧
+    out.stale = false ∧ GoodIn (exFast.process exArgs).1 := by
+  obtain ⟨out, ho, r1, r2, _, r4, r5, _⟩ := process_valid_ok exFast_good exArgs_valid
+  refine ⟨out, ho, r1, ?_, r4, r5⟩
+  have : outNextIn exFast.chunk exFast.orig exFast.orig = 68 := exFast_next
+  omega
+
+/-- the same call evaluated by the kernel: 64 frames in, 53 frames out, nothing stale -/
+example : (match (exFast.process exArgs).2 with
+    | .ok out => (out.nIn, out.nOut, out.stale)
+    | _ => (0, 0, true)) = (64, 53, false) := by decide +kernel
+
+/-- an invalid call (second output buffer one frame short) is an error, not a panic -/
+example : (match (exFast.process { exArgs with outLens := [68, 67] }).2 with
+    | .err e => some e
+    | _ => none) = some (.insufOut 1 68 67) := by decide +kernel
+
+/-- the headline theorem and the accounting bound apply to this resampler: after ANY history … -/
+example (ops : List OpC) (a : CallArgs ℚ) (hv : ValidCall (ops.foldl OpC.apply exFast) a) :
+    ∃ out, ((ops.foldl OpC.apply exFast).process a).2 = .ok out ∧ out.stale = false := by
+  obtain ⟨out, ho, _, _, _, hs, _⟩ := (fixedIn_constant_ratio_safe (Or.inl rfl) nofun nofun nofun
+    (by rw [exFast_next]; decide) exFast_is_init ops a).1 hv
+  exact ⟨out, ho, hs⟩
+
+example (ops : List OpC) :
+    let d := (441/480 : ℚ) * (totalIn exFast ops : ℚ) - (totalOut exFast ops : ℚ)
+    0 ≤ d ∧ d ≤ (441/480 : ℚ) * ((8 : ℚ) - 4 + 1 + 2) := by
+  intro d
+  obtain ⟨a, b, _⟩ := no_drift_init (Or.inl rfl) nofun nofun nofun
+    (by rw [exFast_next]; decide) exFast_is_init ops
+  have hT : ⌈1 / (441/480 : ℚ)⌉ = 2 := by decide +kernel
+  have hL : exFast.L = 8 := rfl
+  rw [hT, hL] at b
+  refine ⟨a, le_trans b (le_of_eq ?_)⟩
+  norm_num
+
+/-- a concrete history: three calls and the totals, evaluated -/
+example : (totalIn exFast [.process exArgs, .process exArgs, .process exArgs],
+    totalOut exFast [.process exArgs, .process exArgs, .process exArgs]) = (192, 170) := by
+  decide +kernel
+
+/-- `SincFixedIn` with sinc length 8, oversampling factor 4, cubic interpolation, chunk 64,
+one channel, ratio 3/2: `GoodIn` after construction, and after `set_chunk_size(10)` -/
+def exSincInit : Except CErr (AState ℚ ℚ) :=
+  AState.init .sincIn (3/2 : ℚ) 2 .septic .cubic ⟨8, 4, fun _ _ _ => 0⟩ 64 1
+
+example : ∃ s, exSincInit = .ok s ∧ GoodIn s ∧ GoodIn (s.setChunk 10).1 ∧
+    (s.setChunk 10).1.chunk = 10 := by
+  have hv : validateRatios (3 / 2 : ℚ) 2 = .ok () := by
+    simp only [validateRatios, le_eq, zero_eq, lt_eq, one_eq]; norm_num
+  have he : ∃ s, exSincInit = .ok s ∧ s.kind = .sincIn ∧ s.maxChunk = 64 := by
+    simp only [exSincInit, AState.init, hv, AKind.isFixedIn]
+    exact ⟨_, rfl, rfl, rfl⟩
+  obtain ⟨s, hs, hk, hmc⟩ := he
+  have hg : GoodIn s := goodIn_init (Or.inr rfl) (fun _ => by norm_num) (fun _ => by norm_num)
+    (fun _ _ => by norm_num) (by decide +kernel) hs
+  refine ⟨s, hs, hg, goodIn_setChunk hg 10, ?_⟩
+  rw [setChunk_sincIn hk, hmc]
+  rfl
+
+
+/-- finding D12 at the level of `process`: `SincFixedIn` with oversampling factor 1 and cubic
+interpolation is accepted by the constructor, and its first (valid) call panics in
+`get_sinc_interpolated` — this is why `GoodIn` asks for `nbr ≥ 2` with cubic / quadratic -/
+example : (match AState.init .sincIn (1 : ℚ) 2 .septic .cubic ⟨8, 1, fun _ _ _ => (0 : ℚ)⟩ 32 1 with
+    | .ok s =>
+      (match (s.process { input := [Array.replicate 32 0], outLens := [42], mask := none }).2 with
+       | .panic _ => true
+       | _ => false)
+    | .error _ => false) = true := by decide +kernel
 
 end Rubato.FixedInHistory
